@@ -5,13 +5,14 @@
    stacks it saw earlier"); proved for the ops of concatenation, `,`, `||`,
    `[ ]`, let/infix (subx), if-then-else, assertions, words, bindings. *)
 From Coq Require Import ZArith NArith List Bool Arith Lia.
-From Dwgrep Require Import Radix Value Words Engine.
+From Dwgrep Require Import Radix Value Words Engine Quiet.
 Import ListNotations.
 
 Section Proofs.
 Variable P : params.
 Variable blks : list mach.
 Notation next := (next P blks).
+Notation snext := (snext P blks).
 
 (* ---- the constructed (pristine) state of a chain ---- *)
 Fixpoint quiet (m : mach) : Prop :=
@@ -32,8 +33,36 @@ Fixpoint quiet (m : mach) : Prop :=
   | MClosure up inner plus slot seen stks drained =>
     quiet up /\ quiet inner /\ slot = None /\ seen = [] /\ stks = [] /\ drained = true
   | MApply up skip sub => quiet up /\ sub = None
-  | MFormat _ _ _ _ => False
+  | MFormat up parts oslot pos =>
+    (* the position counter is reset when the next stack arrives, not at exhaustion: any value *)
+    quiet up /\ (fix all (l : list part) : Prop :=
+                   match l with
+                   | [] => True
+                   | PLit _ :: t => all t
+                   | POp inner slot cur :: t => quiet inner /\ slot = None /\ cur = None /\ all t
+                   end) parts /\ oslot = None
   end.
+
+Definition pquiet (p : part) : Prop :=
+  match p with PLit _ => True | POp inner slot cur => quiet inner /\ slot = None /\ cur = None end.
+
+Lemma quiet_format up parts oslot pos :
+  quiet (MFormat up parts oslot pos) <-> quiet up /\ Forall pquiet parts /\ oslot = None.
+Proof.
+  cbn [quiet].
+  assert (forall l, (fix all (l : list part) : Prop :=
+                       match l with
+                       | [] => True
+                       | PLit _ :: t => all t
+                       | POp inner slot cur :: t => quiet inner /\ slot = None /\ cur = None /\ all t
+                       end) l <-> Forall pquiet l) as A.
+  { induction l as [|[str|inner slot cur] l IH]; [split; [constructor|auto]| |].
+    - split; [intros H; constructor; [exact I|apply IH; exact H]|intros H; inversion H; subst; apply IH; assumption].
+    - split.
+      + intros [H1 [H2 [H3 H4]]]. constructor; [cbn; auto|apply IH; exact H4].
+      + intros H. inversion H as [|? ? Q Q4]; subst. cbn in Q. destruct Q as [Q1 [Q2 Q3]]. repeat split; auto. apply IH; assumption. }
+  rewrite A. tauto.
+Qed.
 
 Definition all_quiet (l : list mach) : Prop := Forall quiet l.
 Definition all_quiet_or (l : list (mach * option stack)) : Prop := Forall (fun b => quiet (fst b) /\ snd b = None) l.
@@ -86,8 +115,34 @@ Fixpoint inv (m : mach) : Prop :=
   | MWord up w pending => inv up
   | MClosure up inner _ slot _ _ drained => inv up /\ inv inner /\ (drained = true -> quiet inner /\ slot = None)
   | MApply up _ sub => inv up /\ match sub with None => True | Some (bm, _, _, _) => inv bm end
-  | MFormat _ _ _ _ => False
+  | MFormat up parts oslot pos =>
+    inv up /\ (fix all (l : list part) : Prop :=
+                 match l with
+                 | [] => True
+                 | PLit _ :: t => all t
+                 | POp inner slot cur :: t => inv inner /\ (cur = None -> quiet inner /\ slot = None) /\ all t
+                 end) parts
   end.
+
+Definition pinv (p : part) : Prop :=
+  match p with PLit _ => True | POp inner slot cur => inv inner /\ (cur = None -> quiet inner /\ slot = None) end.
+
+Lemma inv_format up parts oslot pos : inv (MFormat up parts oslot pos) <-> inv up /\ Forall pinv parts.
+Proof.
+  cbn [inv].
+  assert (forall l, (fix all (l : list part) : Prop :=
+                       match l with
+                       | [] => True
+                       | PLit _ :: t => all t
+                       | POp inner slot cur :: t => inv inner /\ (cur = None -> quiet inner /\ slot = None) /\ all t
+                       end) l <-> Forall pinv l) as A.
+  { induction l as [|[str|inner slot cur] l IH]; [split; [constructor|auto]| |].
+    - split; [intros H; constructor; [exact I|apply IH; exact H]|intros H; inversion H; subst; apply IH; assumption].
+    - split.
+      + intros [H1 [H2 H3]]. constructor; [cbn; auto|apply IH; exact H3].
+      + intros H. inversion H as [|? ? Q Q3]; subst. cbn in Q. destruct Q as [Q1 Q2]. repeat split; auto; try (apply Q2; assumption). apply IH; assumption. }
+  rewrite A. tauto.
+Qed.
 
 (* list views of the nested fixpoints *)
 Definition merge_brs_inv (idx : nat) (brs : list mach) : Prop :=
@@ -158,8 +213,19 @@ Fixpoint msize (m : mach) : nat :=
   | MClosure up inner _ _ _ _ _ => S (msize up + msize inner)
   | MApply up _ _ => S (msize up)
   | MIfElse up cnd thn els _ => S (msize up + msize cnd + msize thn + msize els)
-  | _ => 1
+  | MFormat up parts _ _ =>
+    S (msize up + (fix sum (l : list part) : nat :=
+                     match l with [] => 0 | PLit _ :: t => sum t | POp inner _ _ :: t => msize inner + sum t end) parts)
   end.
+
+Lemma msize_in_parts inner slot cur : forall parts, In (POp inner slot cur) parts ->
+  msize inner <= (fix sum (l : list part) : nat :=
+                    match l with [] => 0 | PLit _ :: t => sum t | POp inner _ _ :: t => msize inner + sum t end) parts.
+Proof.
+  induction parts as [|[str|i2 s2 c2] t IH]; intros H; [contradiction| |].
+  - destruct H as [E|H]; [discriminate|apply IH; exact H].
+  - destruct H as [E|H]; [inversion E; subst; lia|apply IH in H; lia].
+Qed.
 
 Lemma msize_in_merge x : forall brs, In x brs ->
   msize x <= (fix sum (l : list mach) : nat := match l with [] => 0 | x :: t => msize x + sum t end) brs.
@@ -174,6 +240,11 @@ Proof.
   induction n as [|n IH]; intros m Hs; [destruct m; cbn in Hs; lia|].
   destruct m; try (cbn [quiet inv]; auto; fail);
     try (cbn [quiet inv]; intros H; apply IH; [cbn [msize] in Hs; lia|exact H]; fail).
+  - (* MFormat *) intros H. apply quiet_format in H. destruct H as [Hu [Hp ->]]. cbn [msize] in Hs.
+    apply inv_format. split; [apply IH; [lia|exact Hu]|].
+    rewrite Forall_forall in *. intros [str|inner slot cur] Hin; [exact I|].
+    destruct (Hp _ Hin) as [Q1 [-> ->]]. split; [|intros _; auto].
+    apply IH; [|exact Q1]. pose proof (msize_in_parts inner None None parts Hin). lia.
   - (* MMerge *) intros H. apply quiet_merge in H. destruct H as [Hu [Hb [Hf [-> [-> [Hl Hn]]]]]].
     cbn [msize] in Hs.
     apply inv_merge. split; [apply IH; [lia|exact Hu]|]. split; [reflexivity|]. split; [destruct brs; [congruence|cbn; lia]|]. split; [exact Hl|].
@@ -677,14 +748,137 @@ Proof.
       * intros _. cbn [quiet]. split; auto.
 Qed.
 
-Theorem main : forall f, Main f.
+
+(* ---- the op of format strings: the chain of stringers, then the op itself ---- *)
+Definition MainS (f : nat) : Prop :=
+  forall env parts oslot s r parts' oslot' s' e, Forall pinv parts ->
+    snext f env parts oslot s = Ret (r, parts', oslot', s', e) ->
+    Forall pinv parts' /\ (r = None -> Forall pquiet parts' /\ oslot' = None).
+
+Lemma snext_nil f env oslot s : snext (S f) env [] oslot s =
+  match oslot with Some stk => Ret (Some (stk, []), [], None, s, []) | None => Ret (None, [], None, s, []) end.
+Proof. reflexivity. Qed.
+
+Lemma snext_lit f env str rest oslot s : snext (S f) env (PLit str :: rest) oslot s =
+  match snext f env rest oslot s with
+  | Ret (Some (stk, suffix), rest', oslot', s', e) => Ret (Some (stk, str ++ suffix), PLit str :: rest', oslot', s', e)
+  | Ret (None, rest', oslot', s', e) => Ret (None, PLit str :: rest', oslot', s', e)
+  | Fuel => Fuel | Stuck => Stuck | Abort => Abort
+  end.
+Proof. reflexivity. Qed.
+
+Lemma snext_op_idle f env inner slot rest oslot s : snext (S f) env (POp inner slot None :: rest) oslot s =
+  match snext f env rest oslot s with
+  | Ret (Some (stk, suffix), rest', oslot', s', e) =>
+    match snext f env (POp inner (Some stk) (Some suffix) :: rest') oslot' s' with
+    | Ret (r, parts', oslot'', s'', e') => Ret (r, parts', oslot'', s'', e ++ e')
+    | o => o
+    end
+  | Ret (None, rest', oslot', s', e) => Ret (None, POp inner slot None :: rest', oslot', s', e)
+  | Fuel => Fuel | Stuck => Stuck | Abort => Abort
+  end.
+Proof. reflexivity. Qed.
+
+Lemma snext_op_busy f env inner slot suffix rest oslot s : snext (S f) env (POp inner slot (Some suffix) :: rest) oslot s =
+  match next f env inner (LOrigin slot) s with
+  | Ret (Some (v :: stk), inner', LOrigin sl, s', e) =>
+    Ret (Some (stk, show (p_tc P) v ++ suffix), POp inner' sl (Some suffix) :: rest, oslot, s', e)
+  | Ret (Some [], _, _, _, _) => Abort
+  | Ret (None, inner', LOrigin sl, s', e) =>
+    match snext f env (POp inner' sl None :: rest) oslot s' with
+    | Ret (r, parts', oslot', s'', e') => Ret (r, parts', oslot', s'', e ++ e')
+    | o => o
+    end
+  | Ret _ => Stuck
+  | Fuel => Fuel | Stuck => Stuck | Abort => Abort
+  end.
+Proof. reflexivity. Qed.
+
+Lemma next_format f env up parts oslot pos c s : next (S f) env (MFormat up parts oslot pos) c s =
+  match snext f env parts oslot s with
+  | Ret (Some (stk, str), parts', oslot', s', e) =>
+    Ret (Some (VStr str pos :: stk), MFormat up parts' oslot' (pos + 1)%N, c, s', e)
+  | Ret (None, parts', oslot', s', e) =>
+    match next f env up c s' with
+    | Ret (Some stk, up', c', s'', e') => add_errs (e ++ e') (next f env (MFormat up' parts' (Some stk) 0%N) c' s'')
+    | Ret (None, up', c', s'', e') => Ret (None, MFormat up' parts' oslot' pos, c', s'', e ++ e')
+    | o => o
+    end
+  | Fuel => Fuel | Stuck => Stuck | Abort => Abort
+  end.
+Proof. reflexivity. Qed.
+
+Lemma pquiet_pinv p : pquiet p -> pinv p.
+Proof. destruct p as [str|inner slot cur]; cbn; auto. intros [Q [-> ->]]. split; [apply quiet_inv; exact Q|auto]. Qed.
+
+Lemma case_snext f : Main f -> MainS f -> MainS (S f).
 Proof.
-  induction f as [|f IHf]; intros env m c s r m' c' s' e Hm Hc Hn H; [discriminate|].
-  destruct m; try (cbn [inv] in Hm; contradiction).
+  intros IHf IHs env parts oslot s r parts' oslot' s' e Hp H.
+  destruct parts as [|[str|inner slot cur] rest].
+  - rewrite snext_nil in H. destruct oslot; inversion H; subst; (split; [constructor|]); try discriminate. intros _. split; [constructor|reflexivity].
+  - rewrite snext_lit in H. inversion Hp as [|? ? _ Hrest]; subst.
+    destruct (snext f env rest oslot s) as [| | |[[[[rr rest'] os1] s1] e1]] eqn:E; try discriminate.
+    destruct (IHs _ _ _ _ _ _ _ _ _ Hrest E) as [J1 J2].
+    destruct rr as [[stk suffix]|]; inversion H; subst.
+    + split; [constructor; [exact I|exact J1]|discriminate].
+    + destruct (J2 eq_refl) as [K1 K2]. split; [constructor; [exact I|exact J1]|]. intros _. split; [constructor; [exact I|exact K1]|exact K2].
+  - inversion Hp as [|? ? Hop Hrest]; subst. cbn [pinv] in Hop. destruct Hop as [Hin Hcur].
+    destruct cur as [suffix|].
+    + rewrite snext_op_busy in H.
+      destruct (next f env inner (LOrigin slot) s) as [| | |[[[[ri inner'] ci] si] ei]] eqn:Ei; try discriminate.
+      destruct (sub_pull f IHf _ _ _ _ _ _ _ _ _ Hin Ei) as [J1 [[sl' [-> J2]] J3]].
+      destruct ri as [[|v stk]|]; try discriminate.
+      * inversion H; subst. split; [|discriminate]. constructor; [|exact Hrest]. cbn [pinv]. split; [exact J1|discriminate].
+      * destruct (snext f env (POp inner' sl' None :: rest) oslot si) as [| | |[[[[r2 parts2] os2] s2] e2]] eqn:E2; try discriminate.
+        inversion H; subst. eapply IHs; [|exact E2]. constructor; [|exact Hrest]. cbn [pinv]. split; [exact J1|].
+        intros _. split; [apply J3; reflexivity|apply J2; reflexivity].
+    + rewrite snext_op_idle in H. destruct (Hcur eq_refl) as [Qin ->].
+      destruct (snext f env rest oslot s) as [| | |[[[[rr rest'] os1] s1] e1]] eqn:E; try discriminate.
+      destruct (IHs _ _ _ _ _ _ _ _ _ Hrest E) as [J1 J2].
+      destruct rr as [[stk suffix]|].
+      * destruct (snext f env (POp inner (Some stk) (Some suffix) :: rest') os1 s1) as [| | |[[[[r2 parts2] os2] s2] e2]] eqn:E2; try discriminate.
+        inversion H; subst. eapply IHs; [|exact E2]. constructor; [|exact J1]. cbn [pinv]. split; [apply quiet_inv; exact Qin|discriminate].
+      * inversion H; subst. destruct (J2 eq_refl) as [K1 K2]. split.
+        -- constructor; [|exact J1]. cbn [pinv]. split; [apply quiet_inv; exact Qin|auto].
+        -- intros _. split; [|exact K2]. constructor; [|exact K1]. cbn [pquiet]. auto.
+Qed.
+
+Lemma case_format f : Main f -> MainS f -> forall env up parts oslot pos c s r m' c' s' e,
+  inv (MFormat up parts oslot pos) -> cinv c -> nodone c ->
+  next (S f) env (MFormat up parts oslot pos) c s = Ret (r, m', c', s', e) -> Concl c r m' c'.
+Proof.
+  intros IHf IHs env up parts oslot pos c s r m' c' s' e Hm Hc Hn H. apply inv_format in Hm. destruct Hm as [Hup Hp].
+  rewrite next_format in H.
+  destruct (snext f env parts oslot s) as [| | |[[[[rr parts1] os1] s1] e1]] eqn:E; try discriminate.
+  destruct (IHs _ _ _ _ _ _ _ _ _ Hp E) as [J1 J2].
+  destruct rr as [[stk str]|].
+  - inversion H; subst. concl.
+    + apply inv_format. split; auto.
+    + exact Hc.
+    + apply shape_refl.
+    + apply nodone_cpost_false. exact Hn.
+    + discriminate.
+  - destruct (J2 eq_refl) as [K1 ->].
+    pull H Eu. destruct (IHf _ _ _ _ _ _ _ _ _ Hup Hc Hn Eu) as [I1 [I2 [I3 [I4 I5]]]].
+    destruct ru as [stk|].
+    + apply add_errs_ret in H. destruct H as [e2 H]. cbn [isnone] in I4.
+      eapply chain_concl; [exact I3|]. eapply (IHf _ (MFormat up' parts1 (Some stk) 0%N) cu); eauto.
+      * apply inv_format. split; auto.
+      * apply cpost_false_nodone. exact I4.
+    + inversion H; subst. assert (quiet up') as Q by (apply I5; reflexivity). concl; auto.
+      * apply inv_format. split; auto.
+      * intros _. apply quiet_format. repeat split; auto.
+Qed.
+
+Lemma main_step f : Main f -> MainS f -> Main (S f).
+Proof.
+  intros IHf IHs env m c s r m' c' s' e Hm Hc Hn H.
+  destruct m.
   - eapply case_leaf; eauto.
   - rewrite next_nop in H. refine (case_unary f MNop _ IHf _ _ env m c s r m' c' s' e Hm Hc Hn H); intros; cbn [inv quiet]; reflexivity.
   - rewrite next_const in H. refine (case_unary f (fun u => MConst u v) _ IHf _ _ env m c s r m' c' s' e Hm Hc Hn H); intros; cbn [inv quiet]; reflexivity.
   - exact (case_assert f IHf env m p c s r m' c' s' e Hm Hc Hn H).
+  - exact (case_format f IHf IHs env m parts oslot pos c s r m' c' s' e Hm Hc Hn H).
   - exact (case_merge f IHf env m brs file idx done c s r m' c' s' e Hm Hc Hn H).
   - exact (case_or f IHf env m brs cur c s r m' c' s' e Hm Hc Hn H).
   - destruct Hm as [H1 H2]. exact (case_capture f IHf env m1 m2 c s r m' c' s' e H1 H2 Hc Hn H).
@@ -699,6 +893,16 @@ Proof.
   - exact (case_apply f IHf env m skip sub c s r m' c' s' e Hm Hc Hn H).
   - rewrite next_debug in H. refine (case_unary f MDebug _ IHf _ _ env m c s r m' c' s' e Hm Hc Hn H); intros; cbn [inv quiet]; reflexivity.
 Qed.
+
+Theorem main_both : forall f, Main f /\ MainS f.
+Proof.
+  induction f as [|f [A B]].
+  - split; [intros env m c s r m' c' s' e _ _ _ H|intros env parts oslot s r parts' oslot' s' e _ H]; discriminate.
+  - split; [apply main_step|apply case_snext]; assumption.
+Qed.
+
+Theorem main : forall f, Main f.
+Proof. intros f. apply main_both. Qed.
 
 (* ---- the constructed state of a chain, as a function ---- *)
 Fixpoint reset (m : mach) : mach :=
@@ -720,42 +924,99 @@ Fixpoint reset (m : mach) : mach :=
   | MWord up w _ => MWord (reset up) w []
   | MClosure up inner plus _ _ _ _ => MClosure (reset up) (reset inner) plus None [] [] true
   | MApply up skip _ => MApply (reset up) skip None
-  | other => other
+  | MFormat up parts _ _ =>
+    MFormat (reset up)
+            (map (fun p => match p with PLit str => PLit str | POp inner _ _ => POp (reset inner) None None end) parts)
+            None 0%N
   end.
+
+Definition preset (p : part) : part :=
+  match p with PLit str => PLit str | POp inner _ _ => POp (reset inner) None None end.
+
+Lemma reset_format up parts oslot pos :
+  reset (MFormat up parts oslot pos) = MFormat (reset up) (map preset parts) None 0%N.
+Proof. reflexivity. Qed.
 
 Lemma all_none_map_none (file : list (option stack)) : all_none file = true -> map (fun _ => None) file = file.
 Proof.
   unfold all_none. induction file as [|[x|] t IH]; cbn; intros H; [reflexivity|discriminate|]. f_equal. apply IH. exact H.
 Qed.
 
-(* a pristine chain is its own reset *)
-Lemma quiet_reset_n : forall n m, msize m <= n -> quiet m -> reset m = m.
+(* chains without the op of format strings *)
+Lemma hf_merge_in : forall brs,
+  (fix any (l : list mach) : bool := match l with [] => false | x :: t => has_format x || any t end) brs = false ->
+  forall x, In x brs -> has_format x = false.
 Proof.
-  induction n as [|n IH]; intros m Hs; [destruct m; cbn in Hs; lia|].
-  destruct m; try (cbn [quiet]; intros []; fail); try reflexivity;
-    try (cbn [quiet reset msize] in *; intros H; f_equal; apply IH; [lia|exact H]; fail).
-  - (* MMerge *) intros H. apply quiet_merge in H. destruct H as [Hu [Hb [Hf [-> [-> [Hl Hn]]]]]].
-    cbn [msize reset] in *. f_equal; [apply IH; [lia|exact Hu]| |apply all_none_map_none; exact Hf].
-    unfold all_quiet in Hb. rewrite Forall_forall in Hb.
-    assert (forall x, In x brs -> reset x = x) as E.
-    { intros x Hx. apply IH; [pose proof (msize_in_merge x brs Hx); lia|apply Hb; exact Hx]. }
-    clear - E. induction brs as [|x t IHt]; [reflexivity|]. cbn [map]. f_equal; [apply E; left; reflexivity|apply IHt; intros y Hy; apply E; right; exact Hy].
-  - (* MOr *) intros H. apply quiet_or in H. destruct H as [Hu [Hb ->]]. cbn [msize reset] in *. f_equal; [apply IH; [lia|exact Hu]|].
-    unfold all_quiet_or in Hb. rewrite Forall_forall in Hb.
-    assert (forall x, In x brs -> (reset (fst x), None) = x) as E.
-    { intros [x sl] Hx. destruct (Hb _ Hx) as [Q1 Q2]. cbn [fst snd] in *. subst sl. f_equal. apply IH; [|exact Q1].
-      pose proof (msize_in_or x None brs Hx). lia. }
-    clear - E. induction brs as [|x t IHt]; [reflexivity|]. cbn [map]. f_equal; [apply E; left; reflexivity|apply IHt; intros y Hy; apply E; right; exact Hy].
-  - (* MCapture *) cbn [quiet reset msize] in *. intros [H1 H2]. f_equal. apply IH; [lia|exact H1].
-  - (* MClosure *) cbn [quiet reset msize] in *. intros [H1 [H2 [-> [-> [-> ->]]]]]. f_equal; apply IH; try lia; assumption.
-  - (* MSubx *) cbn [quiet reset msize] in *. intros [H1 [H2 [-> ->]]]. f_equal; apply IH; try lia; assumption.
-  - (* MIfElse *) cbn [quiet reset msize] in *. intros [H1 [H2 [H3 [H4 ->]]]]. f_equal. apply IH; [lia|exact H1].
-  - (* MWord *) cbn [quiet reset msize] in *. intros [H1 ->]. f_equal. apply IH; [lia|exact H1].
-  - (* MApply *) cbn [quiet reset msize] in *. intros [H1 ->]. f_equal. apply IH; [lia|exact H1].
+  induction brs as [|y t IHt]; intros H x Hx; [contradiction|]. apply orb_false_elim in H. destruct H as [H1 H2].
+  destruct Hx as [->|Hx]; [exact H1|apply IHt; assumption].
 Qed.
 
-Lemma quiet_reset m : quiet m -> reset m = m.
+Lemma hf_or_in : forall brs,
+  (fix any (l : list (mach * option stack)) : bool := match l with [] => false | (x, _) :: t => has_format x || any t end) brs = false ->
+  forall x sl, In (x, sl) brs -> has_format x = false.
+Proof.
+  induction brs as [|[y sy] t IHt]; intros H x sl Hx; [contradiction|]. apply orb_false_elim in H. destruct H as [H1 H2].
+  destruct Hx as [E|Hx]; [inversion E; subst; exact H1|eapply IHt; eassumption].
+Qed.
+
+(* a pristine chain without format ops is its own reset (with them: up to their position counters) *)
+Lemma quiet_reset_n : forall n m, msize m <= n -> quiet m -> has_format m = false -> reset m = m.
+Proof.
+  induction n as [|n IH]; intros m Hs; [destruct m; cbn in Hs; lia|].
+  destruct m; try (cbn [has_format]; intros; discriminate); try reflexivity;
+    try (cbn [quiet reset msize has_format] in *; intros H F; f_equal; apply IH; [lia|exact H|exact F]; fail).
+  - (* MMerge *) intros H F. apply quiet_merge in H. destruct H as [Hu [Hb [Hf [-> [-> [Hl Hn]]]]]].
+    cbn [has_format] in F. apply orb_false_elim in F. destruct F as [F1 F2].
+    cbn [msize reset] in *. f_equal; [apply IH; [lia|exact Hu|exact F1]| |apply all_none_map_none; exact Hf].
+    unfold all_quiet in Hb. rewrite Forall_forall in Hb.
+    assert (forall x, In x brs -> reset x = x) as E.
+    { intros x Hx. apply IH; [pose proof (msize_in_merge x brs Hx); lia|apply Hb; exact Hx|eapply hf_merge_in; eauto]. }
+    clear - E. induction brs as [|x t IHt]; [reflexivity|]. cbn [map]. f_equal; [apply E; left; reflexivity|apply IHt; intros y Hy; apply E; right; exact Hy].
+  - (* MOr *) intros H F. apply quiet_or in H. destruct H as [Hu [Hb ->]].
+    cbn [has_format] in F. apply orb_false_elim in F. destruct F as [F1 F2].
+    cbn [msize reset] in *. f_equal; [apply IH; [lia|exact Hu|exact F1]|].
+    unfold all_quiet_or in Hb. rewrite Forall_forall in Hb.
+    assert (forall x, In x brs -> (reset (fst x), None) = x) as E.
+    { intros [x sl] Hx. destruct (Hb _ Hx) as [Q1 Q2]. cbn [fst snd] in *. subst sl. f_equal. apply IH; [|exact Q1|eapply hf_or_in; eauto].
+      pose proof (msize_in_or x None brs Hx). lia. }
+    clear - E. induction brs as [|x t IHt]; [reflexivity|]. cbn [map]. f_equal; [apply E; left; reflexivity|apply IHt; intros y Hy; apply E; right; exact Hy].
+  - (* MCapture *) cbn [quiet reset msize has_format] in *. intros [H1 H2] F. apply orb_false_elim in F. destruct F as [F1 F2]. f_equal. apply IH; [lia|exact H1|exact F1].
+  - (* MClosure *) cbn [quiet reset msize has_format] in *. intros [H1 [H2 [-> [-> [-> ->]]]]] F. apply orb_false_elim in F. destruct F as [F1 F2]. f_equal; apply IH; try lia; assumption.
+  - (* MSubx *) cbn [quiet reset msize has_format] in *. intros [H1 [H2 [-> ->]]] F. apply orb_false_elim in F. destruct F as [F1 F2]. f_equal; apply IH; try lia; assumption.
+  - (* MIfElse *) cbn [quiet reset msize has_format] in *. intros [H1 [H2 [H3 [H4 ->]]]] F.
+    apply orb_false_elim in F. destruct F as [F F4]. apply orb_false_elim in F. destruct F as [F F3]. apply orb_false_elim in F. destruct F as [F1 F2].
+    f_equal. apply IH; [lia|exact H1|exact F1].
+  - (* MWord *) cbn [quiet reset msize has_format] in *. intros [H1 ->] F. f_equal. apply IH; [lia|exact H1|exact F].
+  - (* MApply *) cbn [quiet reset msize has_format] in *. intros [H1 ->] F. f_equal. apply IH; [lia|exact H1|exact F].
+Qed.
+
+Lemma quiet_reset m : quiet m -> has_format m = false -> reset m = m.
 Proof. apply (quiet_reset_n (msize m)). lia. Qed.
+
+(* resetting keeps the ops: in particular whether there is a format op *)
+Lemma hf_reset_n : forall n m, msize m <= n -> has_format (reset m) = has_format m.
+Proof.
+  induction n as [|n IH]; intros m Hs; [destruct m; cbn in Hs; lia|].
+  destruct m; try reflexivity; cbn [reset has_format msize] in *;
+    try (apply IH; lia; fail).
+  - (* MMerge *) rewrite IH by lia. f_equal.
+    assert (forall x, In x brs -> has_format (reset x) = has_format x) as E.
+    { intros x Hx. apply IH. pose proof (msize_in_merge x brs Hx). lia. }
+    clear - E. induction brs as [|x t IHt]; [reflexivity|]. cbn [map]. rewrite E by (left; reflexivity). f_equal.
+    apply IHt. intros y Hy. apply E. right. exact Hy.
+  - (* MOr *) rewrite IH by lia. f_equal.
+    assert (forall x sl, In (x, sl) brs -> has_format (reset x) = has_format x) as E.
+    { intros x sl Hx. apply IH. pose proof (msize_in_or x sl brs Hx). lia. }
+    clear - E. induction brs as [|[x sl] t IHt]; [reflexivity|]. cbn [map fst]. rewrite (E x sl) by (left; reflexivity). f_equal.
+    apply IHt. intros y sy Hy. apply (E y sy). right. exact Hy.
+  - (* MCapture *) rewrite IH by lia. reflexivity.
+  - (* MClosure *) rewrite !IH by lia. reflexivity.
+  - (* MSubx *) rewrite !IH by lia. reflexivity.
+  - (* MIfElse *) rewrite IH by lia. reflexivity.
+Qed.
+
+Lemma hf_reset m : has_format (reset m) = has_format m.
+Proof. apply (hf_reset_n (msize m)). lia. Qed.
 
 (* ---- a pull changes state only: the constructed chain underneath stays the same ---- *)
 Fixpoint csame (c c' : lctx) : Prop :=
@@ -819,10 +1080,51 @@ Proof.
   - inversion H; subst. split; [apply Wr; exact R1|exact R2].
 Qed.
 
-Theorem mainR : forall f, MainR f.
+Definition MainRS (f : nat) : Prop :=
+  forall env parts oslot s r parts' oslot' s' e, Forall pinv parts ->
+    snext f env parts oslot s = Ret (r, parts', oslot', s', e) -> map preset parts' = map preset parts.
+
+Lemma caseR_snext f : MainR f -> MainRS f -> MainRS (S f).
 Proof.
-  induction f as [|f IHr]; intros env m c s r m' c' s' e Hm Hc Hn H; [discriminate|].
-  destruct m; try (cbn [inv] in Hm; contradiction).
+  intros IHr IHrs env parts oslot s r parts' oslot' s' e Hp H.
+  destruct (main_both f) as [MN MS].
+  destruct parts as [|[str|inner slot cur] rest].
+  - rewrite snext_nil in H. destruct oslot; inversion H; reflexivity.
+  - rewrite snext_lit in H. inversion Hp as [|? ? _ Hrest]; subst.
+    destruct (snext f env rest oslot s) as [| | |[[[[rr rest'] os1] s1] e1]] eqn:E; try discriminate.
+    pose proof (IHrs _ _ _ _ _ _ _ _ _ Hrest E) as R.
+    destruct rr as [[stk suffix]|]; inversion H; subst; cbn [map preset]; f_equal; exact R.
+  - inversion Hp as [|? ? Hop Hrest]; subst. cbn [pinv] in Hop. destruct Hop as [Hin Hcur].
+    destruct cur as [suffix|].
+    + rewrite snext_op_busy in H.
+      destruct (next f env inner (LOrigin slot) s) as [| | |[[[[ri inner'] ci] si] ei]] eqn:Ei; try discriminate.
+      destruct (sub_pull f MN _ _ _ _ _ _ _ _ _ Hin Ei) as [J1 [[sl' [-> J2]] J3]].
+      assert (cinv (LOrigin slot)) as C1 by exact I. assert (nodone (LOrigin slot)) as C2 by exact I.
+      destruct (IHr _ _ _ _ _ _ _ _ _ Hin C1 C2 Ei) as [R1 _].
+      destruct ri as [[|v stk]|]; try discriminate.
+      * inversion H; subst. cbn [map preset]. rewrite R1. reflexivity.
+      * destruct (snext f env (POp inner' sl' None :: rest) oslot si) as [| | |[[[[r2 parts2] os2] s2] e2]] eqn:E2; try discriminate.
+        inversion H; subst.
+        assert (Forall pinv (POp inner' sl' None :: rest)) as HP.
+        { constructor; [|exact Hrest]. cbn [pinv]. split; [exact J1|]. intros _. split; [apply J3; reflexivity|apply J2; reflexivity]. }
+        rewrite (IHrs _ _ _ _ _ _ _ _ _ HP E2). cbn [map preset]. rewrite R1. reflexivity.
+    + rewrite snext_op_idle in H. destruct (Hcur eq_refl) as [Qin ->].
+      destruct (snext f env rest oslot s) as [| | |[[[[rr rest'] os1] s1] e1]] eqn:E; try discriminate.
+      destruct (MS _ _ _ _ _ _ _ _ _ Hrest E) as [J1 J2].
+      pose proof (IHrs _ _ _ _ _ _ _ _ _ Hrest E) as R.
+      destruct rr as [[stk suffix]|].
+      * destruct (snext f env (POp inner (Some stk) (Some suffix) :: rest') os1 s1) as [| | |[[[[r2 parts2] os2] s2] e2]] eqn:E2; try discriminate.
+        inversion H; subst.
+        assert (Forall pinv (POp inner (Some stk) (Some suffix) :: rest')) as HP.
+        { constructor; [|exact J1]. cbn [pinv]. split; [apply quiet_inv; exact Qin|discriminate]. }
+        rewrite (IHrs _ _ _ _ _ _ _ _ _ HP E2). cbn [map preset]. rewrite R. reflexivity.
+      * inversion H; subst. cbn [map preset]. rewrite R. reflexivity.
+Qed.
+
+Lemma mainR_step f : MainR f -> MainRS f -> MainR (S f).
+Proof.
+  intros IHr IHrs env m c s r m' c' s' e Hm Hc Hn H.
+  destruct m.
   - (* leaf *)
     destruct c as [sl|i file done up uc].
     + rewrite next_leaf_origin in H. inversion H; subst. cbn. auto.
@@ -844,6 +1146,20 @@ Proof.
         split; [rewrite Q1; cbn [reset]; congruence|eapply csame_trans; eauto]. }
       destruct pr; try (exact (REC _ H)). inversion H; subst. cbn [reset]. split; [congruence|exact R2].
     + inversion H; subst. cbn [reset]. split; [congruence|exact R2].
+  - (* format *)
+    apply inv_format in Hm. destruct Hm as [Hup Hp]. rewrite next_format in H.
+    destruct (snext f env parts oslot s) as [| | |[[[[rr parts1] os1] s1] e1]] eqn:E; try discriminate.
+    destruct (main_both f) as [_ MS]. destruct (MS _ _ _ _ _ _ _ _ _ Hp E) as [J1 J2].
+    pose proof (IHrs _ _ _ _ _ _ _ _ _ Hp E) as RP.
+    destruct rr as [[stk str]|].
+    + inversion H; subst. rewrite !reset_format. split; [congruence|apply csame_refl].
+    + destruct (J2 eq_refl) as [K1 ->]. pull2 H Eu IHr Hup Hc Hn.
+      destruct ru as [stk|].
+      * apply add_errs_ret in H. destruct H as [e2 H]. cbn [isnone] in I4.
+        assert (inv (MFormat up' parts1 (Some stk) 0%N)) as HI by (apply inv_format; split; auto).
+        destruct (IHr _ (MFormat up' parts1 (Some stk) 0%N) cu _ _ _ _ _ _ HI I2 (cpost_false_nodone _ I4) H) as [Q1 Q2].
+        split; [rewrite Q1, !reset_format; congruence|eapply csame_trans; eauto].
+      * inversion H; subst. rewrite !reset_format. split; [congruence|exact R2].
   - (* merge *)
     cbn [next] in H. apply inv_merge in Hm. destruct Hm as [Hup [-> [Hidx [Hlen Hb]]]]. cbn iota in H.
     destruct (nth_error brs idx) as [br|] eqn:Ni; [|discriminate].
@@ -1021,6 +1337,16 @@ Proof.
   - rewrite next_debug in H. refine (unary_reset f MDebug _ IHr _ _ env m c s r m' c' s' e Hm Hc Hn H); intros; cbn [inv reset]; [reflexivity|congruence].
 Qed.
 
+Theorem mainR_both : forall f, MainR f /\ MainRS f.
+Proof.
+  induction f as [|f [A B]].
+  - split; [intros env m c s r m' c' s' e _ _ _ H|intros env parts oslot s r parts' oslot' s' e _ H]; discriminate.
+  - split; [apply mainR_step|apply caseR_snext]; assumption.
+Qed.
+
+Theorem mainR : forall f, MainR f.
+Proof. intros f. apply mainR_both. Qed.
+
 (* ---- the engine forgets ---- *)
 
 (* pulling a chain dry: the stacks it yields, and the state it is left in *)
@@ -1043,35 +1369,59 @@ Proof.
     repeat split; auto; [congruence|eapply shape_trans; eauto].
 Qed.
 
-(* C01, engine side: a chain that was pulled dry is literally the chain it was
-   constructed as -- so what it does with the next input cannot depend on the
-   inputs it has seen *)
-Theorem engine_forgets f env m sl s outs m' c' s' :
-  quiet m -> drains f env m (LOrigin sl) s outs m' c' s' -> m' = m /\ c' = LOrigin None.
+(* C01, engine side, every op: a chain that was pulled dry is in its constructed
+   state again -- the same ops, every one of them pristine; the only thing that
+   may differ from the chain as constructed is the position counter of a format
+   op, which that op sets back when the next stack arrives (op_format::next) *)
+Theorem engine_forgets_any f env m sl s outs m' c' s' :
+  quiet m -> drains f env m (LOrigin sl) s outs m' c' s' ->
+  quiet m' /\ reset m' = reset m /\ c' = LOrigin None.
 Proof.
   intros Q D.
   assert (cinv (LOrigin sl)) as C1 by exact I. assert (nodone (LOrigin sl)) as C2 by exact I.
   destruct (drained_is_pristine f env m _ s outs m' c' s' (quiet_inv _ Q) C1 C2 D) as [Q1 [Q2 [Q3 [Q4 Q5]]]].
-  split.
-  - rewrite <- (quiet_reset m' Q1), Q2. apply quiet_reset. exact Q.
-  - destruct c' as [sl'|]; [|cbn in Q4; contradiction]. cbn in Q5. rewrite (Q5 eq_refl). reflexivity.
+  split; [exact Q1|]. split; [exact Q2|].
+  destruct c' as [sl'|]; [|cbn in Q4; contradiction]. cbn in Q5. rewrite (Q5 eq_refl). reflexivity.
+Qed.
+
+(* without format ops: a chain that was pulled dry is literally the chain it was
+   constructed as -- so what it does with the next input cannot depend on the
+   inputs it has seen *)
+Theorem engine_forgets f env m sl s outs m' c' s' :
+  quiet m -> has_format m = false -> drains f env m (LOrigin sl) s outs m' c' s' -> m' = m /\ c' = LOrigin None.
+Proof.
+  intros Q F D. destruct (engine_forgets_any f env m sl s outs m' c' s' Q D) as [Q1 [Q2 Q3]].
+  split; [|exact Q3].
+  assert (has_format m' = false) as F' by (rewrite <- hf_reset, Q2, hf_reset; exact F).
+  rewrite <- (quiet_reset m' Q1 F'), Q2. apply quiet_reset; assumption.
 Qed.
 
 (* hence two inputs processed one after the other by the same chain give what
    each gives alone, in that order *)
 Corollary engine_stream f env m a b s outsA mA cA sA outsB mB cB sB :
-  quiet m ->
+  quiet m -> has_format m = false ->
   drains f env m (LOrigin (Some a)) s outsA mA cA sA ->
   drains f env mA (LOrigin (Some b)) sA outsB mB cB sB ->
   drains f env m (LOrigin (Some b)) sA outsB mB cB sB /\ mB = m.
 Proof.
-  intros Q DA DB. destruct (engine_forgets f env m _ s outsA mA cA sA Q DA) as [-> _].
-  split; [exact DB|]. apply (engine_forgets f env m _ sA outsB mB cB sB Q DB).
+  intros Q F DA DB. destruct (engine_forgets f env m _ s outsA mA cA sA Q F DA) as [-> _].
+  split; [exact DB|]. apply (engine_forgets f env m _ sA outsB mB cB sB Q F DB).
+Qed.
+
+(* with format ops: the second input meets a pristine chain of the same ops *)
+Corollary engine_stream_any f env m a b s outsA mA cA sA outsB mB cB sB :
+  quiet m ->
+  drains f env m (LOrigin (Some a)) s outsA mA cA sA ->
+  drains f env mA (LOrigin (Some b)) sA outsB mB cB sB ->
+  quiet mA /\ reset mA = reset m /\ quiet mB /\ reset mB = reset m.
+Proof.
+  intros Q DA DB. destruct (engine_forgets_any f env m _ s outsA mA cA sA Q DA) as [QA [RA _]].
+  destruct (engine_forgets_any f env mA _ sA outsB mB cB sB QA DB) as [QB [RB _]].
+  repeat split; auto. congruence.
 Qed.
 End Proofs.
 
 (* the executable test implies the predicate *)
-From Dwgrep Require Import Quiet.
 
 Lemma all_fix_merge : forall brs,
   (fix all (l : list mach) : bool := match l with [] => true | x :: t => quietb x && all t end) brs = true ->
@@ -1091,12 +1441,34 @@ Proof.
   destruct Hx as [E|Hx]; [inversion E; subst; split; [exact H1|destruct sl; [discriminate|reflexivity]]|apply IHt; assumption].
 Qed.
 
+Lemma all_fix_parts : forall parts,
+  (fix all (l : list part) : bool :=
+     match l with
+     | [] => true
+     | PLit _ :: t => all t
+     | POp inner slot cur :: t => quietb inner && is_none slot && is_none cur && all t
+     end) parts = true ->
+  forall inner slot cur, In (POp inner slot cur) parts -> quietb inner = true /\ slot = None /\ cur = None.
+Proof.
+  induction parts as [|[str|i2 s2 c2] t IHt]; intros H inner slot cur Hx; [contradiction| |].
+  - destruct Hx as [E|Hx]; [discriminate|eapply IHt; eassumption].
+  - apply andb_prop in H. destruct H as [H H4]. apply andb_prop in H. destruct H as [H H3]. apply andb_prop in H. destruct H as [H1 H2].
+    destruct Hx as [E|Hx]; [|eapply IHt; eassumption]. inversion E; subst.
+    split; [exact H1|]. split; [destruct slot; [discriminate|reflexivity]|destruct cur; [discriminate|reflexivity]].
+Qed.
+
 Lemma quietb_quiet_n : forall n m, msize m <= n -> quietb m = true -> quiet m.
 Proof.
   induction n as [|n IH]; intros m Hs; [destruct m; cbn in Hs; lia|].
   destruct m; try (cbn [quietb quiet]; auto; fail);
     try (cbn [quietb quiet msize] in *; intros H; apply IH; [lia|exact H]; fail);
     cbn [quietb msize] in *; intros H; try discriminate H.
+  - (* MFormat *)
+    apply andb_prop in H. destruct H as [H H3]. apply andb_prop in H. destruct H as [H1 H2].
+    apply quiet_format. split; [apply IH; [lia|exact H1]|]. split; [|destruct oslot; [discriminate|reflexivity]].
+    rewrite Forall_forall. intros [str|inner slot cur] Hin; [exact I|].
+    destruct (all_fix_parts parts H2 inner slot cur Hin) as [Q1 [-> ->]]. cbn [pquiet]. split; [|auto].
+    apply IH; [|exact Q1]. pose proof (msize_in_parts inner None None parts Hin). lia.
   - (* MMerge *)
     apply andb_prop in H. destruct H as [H H7]. apply andb_prop in H. destruct H as [H H6]. apply andb_prop in H. destruct H as [H H5].
     apply andb_prop in H. destruct H as [H H4]. apply andb_prop in H. destruct H as [H H3]. apply andb_prop in H. destruct H as [H1 H2].
